@@ -14,7 +14,7 @@ LIST_KEYS = {"values", "cells", "rows", "edits", "cols", "a", "ops2", "chunks", 
 
 
 class Shrinker:
-    def __init__(self, engine_cls, prop, cfg, findings, klass, budget=400):
+    def __init__(self, engine_cls, prop, cfg, findings, klass, budget=400, wall_s=90.0, replay_timeout_s=8.0):
         self.engine_cls = engine_cls
         self.prop = prop
         self.cfg = cfg
@@ -22,12 +22,18 @@ class Shrinker:
         self.klass = klass
         self.budget = budget
         self.tries = 0
+        import time as _t
+
+        self._clock = _t.monotonic  # (wall-clock cap on the minimisation only: never part of a run)
+        self.deadline = self._clock() + wall_s
+        self.replay_timeout_s = replay_timeout_s
 
     def fails(self, ops):
-        if self.tries >= self.budget:
+        if self.tries >= self.budget or self._clock() > self.deadline:
+            self.tries = self.budget  # stop everything
             return None
         self.tries += 1
-        r = execute(self.engine_cls, self.prop, cfg=self.cfg, ops=ops, findings=self.findings)
+        r = execute(self.engine_cls, self.prop, cfg=self.cfg, ops=ops, findings=self.findings, timeout_s=self.replay_timeout_s)
         if r.harness_error or r.violation is None:
             return None
         if r.violation.klass() != self.klass:
